@@ -7,7 +7,7 @@ LEVEL = "model_checking"
 MANIFEST = {
     "engine": "tlc ObjectStoreRead histories + vhpack c11",
     "technique": "TLC enumerates read histories (Get by id and type incl. wrong type, Size, Has, DeltaObject, Packfile.GetByOffset, iterators consumed by one element or fully, prefix search) over the abstract store slot -> (type, location) and computes the expected observation of each read; each history is replayed on a fresh filesystem.Storage over a git-built repository (3 packs with delta chains, loose objects, an object both loose and packed, a 250 KiB blob, an alternate) for rows of the option matrix {object cache full/empty} x {memory/lazy idx} x {LargeObjectThreshold 0/64K} x {ExclusiveAccess} x {mmap}; object bytes are compared with git cat-file --batch-all-objects --batch",
-    "text": "Exhaustive over all read histories of length 2 on an 86-symbol read alphabet (11 slots) plus seeded simulated histories of length 5; each history on 1 (quick, a seeded sixth of the length-2 histories) / 3 (thorough, all) option rows; the replay is sharded over 2 / 6 harness processes, all 32 rows used; spec theorems (reads are observers, NotFound exactly for absent slots or wrong types) are TLC invariants.",
+    "text": "Exhaustive over all read histories of length 2 on an 86-symbol read alphabet (11 slots) plus seeded simulated histories of length 5; each history on 1 (quick, a seeded sixth of the length-2 histories) / 2 (thorough, all) option rows; the replay is sharded over 2 / 6 harness processes, all 32 rows used; spec theorems (reads are observers, NotFound exactly for absent slots or wrong types) are TLC invariants.",
     "note": "The object universe is one fixed repository per run (SHA-1; SHA-256 when seed % 4 = 3); which packed slots git stores as deltas is git's choice (the delta chain is checked to exist). Concurrent reads are C23's, writes interleaved with reads C18's. git is the interpreter of ids: the expected bytes are git cat-file's.",
 }
 
@@ -26,7 +26,7 @@ def run(ctx):
     r = ctx.tlc("ObjectStoreRead", cfg_text=CFG % 2, cfg="ObjectStoreRead_2.cfg", workers=1, timeout=900)
     ex = ctx.printed_json(r)
     hists += ex
-    num = 60 if ctx.thorough else 4   # TLC prints every successor of the last step: ~86 histories per simulated behaviour
+    num = 40 if ctx.thorough else 4   # TLC prints every successor of the last step: ~86 histories per simulated behaviour
     r2 = ctx.tlc("ObjectStoreRead", cfg_text=CFG % 5, cfg="ObjectStoreRead_5.cfg", mode="simulate", depth=6, num=num, workers=1, timeout=900)
     sim = ctx.printed_json(r2)
     hists += sim
@@ -41,7 +41,7 @@ def run(ctx):
     if not ctx.thorough:
         # quick: every history of length 2 is too many replays for the budget: a seeded sixth, all simulated ones
         uniq = [h for i, h in enumerate(uniq) if len(h) > 2 or i % 6 == ctx.seed % 6]
-    per = 3 if ctx.thorough else 1
+    per = 2 if ctx.thorough else 1
     # the replays are independent (fresh Storage per history and option row): shard them over harness
     # *processes* (goroutines in one process were measured to be slower than one goroutine)
     shards = 6 if ctx.thorough else 2
